@@ -55,6 +55,7 @@ fn warm_program(seed: u64, k: u64) -> BTreeMap<String, String> {
         multibyte: 0,
         crlf: vec![false; 8],
         comments: false,
+        shape: 0,
     };
     gen::render(&ast, &layout).into_iter().map(|m| (m.path, m.text)).collect()
 }
@@ -355,6 +356,7 @@ pub fn run(seed: u64, run: u64) -> Report {
         multibyte: (run % 3) as u8,
         crlf: vec![false; 8],
         comments: true,
+        shape: [0, 0, 0, 1, 2][(run % 5) as usize],
     };
     let files: BTreeMap<String, String> = gen::render(&ast, &layout).into_iter().map(|m| (m.path, m.text)).collect();
     let thorough = std::env::var("OALSIM_TIER").map(|t| t == "thorough").unwrap_or(false);
@@ -520,6 +522,7 @@ fn minimise(ast: &gen::ProgramAst, layout: &Layout, scn: &Scenario, pc: Option<&
         multibyte: 0,
         crlf: vec![false; 8],
         comments: false,
+        shape: 0,
     };
     let files_of = |a: &gen::ProgramAst, l: &Layout| -> BTreeMap<String, String> { gen::render(a, l).into_iter().map(|m| (m.path, m.text)).collect() };
     {
